@@ -34,8 +34,8 @@ class Convert(Contract):
     props = {'code_eq_Q': ['C10'], 'format': ['C10', 'C02'], 'shape': ['C10'], 'source_unchanged': ['C10', 'C20'],
              'flag_overflow': ['C04'], 'flag_underflow': ['C04'], 'in_range': ['C02'], 'separate_state': ['C20'],
              'no_exception': ['C10'], 'meta_n_int': ['C02'], 'meta_limits': ['C02'], 'meta_status_keys': ['C02', 'C04'],
-             'inaccuracy_propagates': ['C04'], 'others_unchanged': ['C10'], 'governing_config': ['C10'],
-             'readback': ['C16', 'C10', 'C01'], 'vdtype_consistent': ['C16', 'C02']}
+             'others_unchanged': ['C10'], 'governing_config': ['C10'],
+             'readback': ['C16', 'C10', 'C01'], 'vdtype_consistent': ['C16', 'C02'], 'flag_inaccuracy': ['C04']}
 
     def configs(self, tier):
         fm = conv_formats(tier)
@@ -50,7 +50,7 @@ class Convert(Contract):
                     for shape in shapes:
                         k += 1
                         if tier == 'quick':
-                            if (k % 3) and route not in ('equal', 'like_method'):
+                            if (k % 3) and route not in ('equal', 'like_method') and not (src[0] != dst[0] and src[2] == dst[2]):
                                 continue
                             modes = [MODES[k % len(MODES)]]
                         else:
@@ -66,7 +66,8 @@ class Convert(Contract):
         if df - f > 0:
             for c in cs:
                 D.assume(And(scale2(M(c), df - f) < 2**62, scale2(M(c), df - f) > -2**62))
-        return {'c': cs, 'old': codes_in(D, 'o', 3, ds, dw), 'isrc': D.bool('inacc_src')}
+        return {'c': cs, 'old': codes_in(D, 'o', 3, ds, dw), 'isrc': D.bool('inacc_src'), 'st_dst': sym_status(D, 'dst'),
+                'osrc': D.bool('ovf_src'), 'usrc': D.bool('unf_src')}
 
     def run(self, cfg, P, inp):
         s, w, f = cfg['src']; ds, dw, df = cfg['dst']
@@ -76,13 +77,14 @@ class Convert(Contract):
         shape = tuple(cfg['shape'])
         n = nelem(shape)
         in_place = route in ('resize', 'resize_dtype')
-        src = make_fxp(P, s, w, f, codes=inp['c'], shape=shape, cfg=gov if in_place else other, status={'inaccuracy': inp['isrc']}, vdtype=float if f > 0 else int)
+        src = make_fxp(P, s, w, f, codes=inp['c'], shape=shape, cfg=gov if in_place else other,
+                       status={'inaccuracy': inp['isrc'], 'overflow': inp['osrc'], 'underflow': inp['usrc']}, vdtype=float if f > 0 else int)
         bsrc = dict(src.__dict__); v0 = list(elems(src.val)); st0 = dict(src.status); c0 = dict(src.config.__dict__)
         dst = None
         if route in ('ctor_like', 'like_method', 'equal', 'call', 'set_val'):
-            dst = make_fxp(P, ds, dw, df, codes=inp['old'][:n], shape=shape, cfg=gov, vdtype=float)
+            dst = make_fxp(P, ds, dw, df, codes=inp['old'][:n], shape=shape, cfg=gov, vdtype=float, status=inp['st_dst'])
         elif route == 'setitem':
-            dst = make_fxp(P, ds, dw, df, codes=inp['old'], shape=(3,), cfg=gov, vdtype=float)
+            dst = make_fxp(P, ds, dw, df, codes=inp['old'], shape=(3,), cfg=gov, vdtype=float, status=inp['st_dst'])
         if route == 'resize':
             src.resize(ds, dw, df); z = src
         elif route == 'resize_dtype':
@@ -154,8 +156,26 @@ class Convert(Contract):
             out['in_range[%d]' % i] = And(cz >= lo, cz <= hi)
         st = obs['status']
         out['vdtype_consistent'] = Not(And(obs['vdtype_is_int'], df > 0))
-        out['flag_overflow'] = Iff(B(st['overflow']), Or(*[R > hi for R in Rs]))
-        out['flag_underflow'] = Iff(B(st['underflow']), Or(*[R < lo for R in Rs]))
-        if route in ('ctor_from_fxp', 'ctor_like', 'call', 'set_val', 'setitem'):
-            out['inaccuracy_propagates'] = Implies(B(inp['isrc']), B(st['inaccuracy']))
+        any_hi = Or(*[R > hi for R in Rs]); any_lo = Or(*[R < lo for R in Rs])
+        inexact = Or(*[Not(eq(scale2(cz, -df), scale2(c, -f))) for cz, c in pairs])
+        d0 = inp['st_dst']
+        if route in ('resize', 'resize_dtype'):
+            base = {'overflow': B(inp['osrc']), 'underflow': B(inp['usrc']), 'inaccuracy': B(inp['isrc'])}     # in place: sticky
+            prop = False
+        elif route in ('equal', 'call', 'set_val', 'setitem'):
+            base = {k: B(d0[k]) for k in ('overflow', 'underflow', 'inaccuracy')}                               # in place on dst
+            prop = B(inp['isrc']) if route != 'equal' else False
+        elif route in ('ctor_from_fxp', 'ctor_like'):
+            base = {'overflow': False, 'underflow': False, 'inaccuracy': False}                                  # a fresh status record
+            prop = B(inp['isrc'])
+        else:
+            base = None                                                                                          # like(): only the lower bound is claimed
+        if base is not None:
+            out['flag_overflow'] = Iff(B(st['overflow']), Or(base['overflow'], any_hi))
+            out['flag_underflow'] = Iff(B(st['underflow']), Or(base['underflow'], any_lo))
+            out['flag_inaccuracy'] = Iff(B(st['inaccuracy']), Or(base['inaccuracy'], inexact, prop))
+        else:
+            out['flag_overflow'] = Implies(any_hi, B(st['overflow']))
+            out['flag_underflow'] = Implies(any_lo, B(st['underflow']))
+            out['flag_inaccuracy'] = Implies(inexact, B(st['inaccuracy']))
         return out
